@@ -173,6 +173,29 @@ pub fn mixed() -> Profile {
     p
 }
 
+/// Introspection registry: many registrants per type id (pool of 3), queries forwarded to one
+/// of them, answers by the asked connection and by others, registrants leaving in every order.
+pub fn introspection() -> Profile {
+    let mut p = base("introspection");
+    p.conns = (3, 5);
+    p.max_conns_total = 9;
+    p.versions = vec![16, 17, 18, 19, 20, 20, 20];
+    p.weights = vec![(RegisterIntro, 22), (QueryIntro, 14), (ReplyIntro, 12), (CreateObject, 2), (Sync, 1)];
+    p.weights.extend(DISCONNECTS);
+    p
+}
+
+/// `mixed` with the weight on the introspection registry (C09: registrants terminated at every
+/// point, the cross-reference walk checks the registry's index structure).
+pub fn mixed_intro() -> Profile {
+    let mut p = mixed();
+    p.name = "mixed-intro";
+    p.conns = (3, 5);
+    p.versions = vec![17, 18, 19, 20, 20, 20, 14];
+    p.weights.extend([(RegisterIntro, 26), (QueryIntro, 10), (ReplyIntro, 8)]);
+    p
+}
+
 pub fn versions() -> Profile {
     let mut p = mixed();
     p.name = "versions";
